@@ -12,7 +12,13 @@ What the interleaving model (Model/Threads.lean) hard-wires and this translator 
   * `Session.increment_sequence_number` is `+= 1; if > 0xffffffff: = 1`;
   * the keep-alive callable handed to `call_repeatedly` reaches `_send_and_receive` (so it takes the
     lock), as do `send_and_receive` and `send_and_receive_raw`;
-  * `_inc_sequence_number` is `(n + 1) % 64`.
+  * `_inc_sequence_number` is `(n + 1) % 64`;
+  * session teardown: `call_repeatedly` runs `while not stopped.wait(interval): try: func(*args) except
+    socket.timeout: pass` in a started thread and returns a stopper that sets the event; WHAT ELSE the
+    stopper does is the model's variant (`stopperJoins`: it then joins the thread, directly or guarded by
+    `current_thread() is not t`); `close_session` is: stopper first, `if self._session.activated is False:
+    return`, the Close Session request through `send_and_receive`, and `self._session.activated = False` as
+    its last statement (the only store of False to it).
 
 Fail closed: anything the walker does not recognise is reported as a flag value that differs from
 `Shape.expected`, so the theorem `Props.C14.source_shape` stops building (tie broken), and the check
@@ -173,6 +179,157 @@ def analyse():
         f['sessAdd'] = isn.body[0].value.value
         f['sessLimit'] = isn.body[1].test.comparators[0].value
         f['sessWrapTo'] = isn.body[1].body[0].value.value
+    analyse_teardown(tree, rmcp, f)
+    return f
+
+
+def _is_name(n, name):
+    return isinstance(n, ast.Name) and n.id == name
+
+
+def _method_call_on(node, obj, meth):
+    """node is the call  <obj>.<meth>(...)  on the local name obj -> the Call, else None"""
+    if isinstance(node, ast.Call) and isinstance(node.func, ast.Attribute) and node.func.attr == meth \
+            and _is_name(node.func.value, obj):
+        return node
+    return None
+
+
+def _body(fn):
+    """statements of a function without its docstring"""
+    b = list(fn.body)
+    if b and isinstance(b[0], ast.Expr) and isinstance(b[0].value, ast.Constant) and isinstance(b[0].value.value, str):
+        b = b[1:]
+    return b
+
+
+def analyse_teardown(tree, rmcp, f):
+    # ---- call_repeatedly
+    cr = next((n for n in tree.body if isinstance(n, ast.FunctionDef) and n.name == 'call_repeatedly'), None)
+    f['loopWaitsThenCalls'] = f['loopSwallowsOnlyTimeout'] = f['stopperSets'] = f['stopperJoins'] = False
+    f['stopperText'] = '?'
+    if cr is not None and len(cr.args.args) == 2 and cr.args.vararg is not None:
+        interval, func, star = cr.args.args[0].arg, cr.args.args[1].arg, cr.args.vararg.arg
+        body = _body(cr)
+        ev = thr = None
+        nested = {}
+        target = None
+        started = False
+        ret = None
+        other = 0
+        for st in body:
+            if isinstance(st, ast.Assign) and len(st.targets) == 1 and isinstance(st.targets[0], ast.Name) \
+                    and isinstance(st.value, ast.Call) and isinstance(st.value.func, ast.Attribute) \
+                    and _is_name(st.value.func.value, 'threading'):
+                if st.value.func.attr == 'Event' and not st.value.args and not st.value.keywords:
+                    ev = st.targets[0].id
+                elif st.value.func.attr == 'Thread' and not st.value.args and len(st.value.keywords) == 1 \
+                        and st.value.keywords[0].arg == 'target' and isinstance(st.value.keywords[0].value, ast.Name):
+                    thr = st.targets[0].id
+                    target = st.value.keywords[0].value.id
+                else:
+                    other += 1
+            elif isinstance(st, ast.FunctionDef):
+                nested[st.name] = st
+            elif isinstance(st, ast.Assign) and len(st.targets) == 1 and isinstance(st.targets[0], ast.Attribute) \
+                    and st.targets[0].attr == 'daemon' and thr and _is_name(st.targets[0].value, thr):
+                pass
+            elif isinstance(st, ast.Expr) and thr and _method_call_on(st.value, thr, 'start') is not None:
+                started = True
+            elif isinstance(st, ast.Return):
+                ret = st.value
+            else:
+                other += 1
+        loop = nested.get(target)
+        if loop is not None and ev and started and other == 0 and not loop.args.args:
+            lb = _body(loop)
+            if len(lb) == 1 and isinstance(lb[0], ast.While) and not lb[0].orelse \
+                    and isinstance(lb[0].test, ast.UnaryOp) and isinstance(lb[0].test.op, ast.Not):
+                w = _method_call_on(lb[0].test.operand, ev, 'wait')
+                wb = lb[0].body
+                if w is not None and len(w.args) == 1 and _is_name(w.args[0], interval) and len(wb) == 1 \
+                        and isinstance(wb[0], ast.Try) and not wb[0].orelse and not wb[0].finalbody \
+                        and len(wb[0].body) == 1 and isinstance(wb[0].body[0], ast.Expr):
+                    c = wb[0].body[0].value
+                    if isinstance(c, ast.Call) and _is_name(c.func, func) and len(c.args) == 1 \
+                            and isinstance(c.args[0], ast.Starred) and _is_name(c.args[0].value, star) \
+                            and not c.keywords:
+                        f['loopWaitsThenCalls'] = True
+                    hs = wb[0].handlers
+                    f['loopSwallowsOnlyTimeout'] = bool(
+                        len(hs) == 1 and isinstance(hs[0].type, ast.Attribute) and hs[0].type.attr == 'timeout'
+                        and _is_name(hs[0].type.value, 'socket') and len(hs[0].body) == 1
+                        and isinstance(hs[0].body[0], ast.Pass))
+        # ---- the stopper
+        if ev and isinstance(ret, ast.Attribute) and ret.attr == 'set' and _is_name(ret.value, ev):
+            f['stopperSets'], f['stopperJoins'], f['stopperText'] = True, False, '%s.set' % ev
+        elif ev and thr and isinstance(ret, ast.Name) and ret.id in nested and ret.id != target:
+            sb = _body(nested[ret.id])
+            ok = bool(sb) and not nested[ret.id].args.args and isinstance(sb[0], ast.Expr) \
+                and _method_call_on(sb[0].value, ev, 'set') is not None and not sb[0].value.args
+            joins = False
+
+            def is_join(st):
+                j = _method_call_on(st.value, thr, 'join') if isinstance(st, ast.Expr) else None
+                return j is not None and not j.args and not j.keywords
+            if ok and len(sb) == 2:
+                st = sb[1]
+                if is_join(st):
+                    joins = True
+                elif isinstance(st, ast.If) and not st.orelse and len(st.body) == 1 and is_join(st.body[0]) \
+                        and isinstance(st.test, ast.Compare) and len(st.test.ops) == 1 \
+                        and isinstance(st.test.ops[0], (ast.IsNot, ast.NotEq)) \
+                        and isinstance(st.test.left, ast.Call) and isinstance(st.test.left.func, ast.Attribute) \
+                        and st.test.left.func.attr in ('current_thread', 'currentThread') \
+                        and _is_name(st.test.left.func.value, 'threading') and _is_name(st.test.comparators[0], thr):
+                    joins = True
+                else:
+                    ok = False
+            elif len(sb) != 1:
+                ok = False
+            f['stopperSets'], f['stopperJoins'] = ok, ok and joins
+            f['stopperText'] = '%s: %s.set()%s' % (ret.id, ev, ('; %s.join()' % thr) if joins else '') if ok else '?'
+    # ---- close_session
+    cs = _meth(rmcp, 'close_session')
+    f['closeStopsFirst'] = f['closeChecksActivated'] = f['closeLocked'] = f['closeDeactivatesLast'] = False
+    if cs is not None:
+        def is_log(st):
+            return isinstance(st, ast.Expr) and isinstance(st.value, ast.Call) and isinstance(st.value.func, ast.Attribute) \
+                and isinstance(st.value.func.value, ast.Call) and _is_name(st.value.func.value.func, 'log')
+        b = [st for st in _body(cs) if not is_log(st)]
+        if b and isinstance(b[0], ast.If) and not b[0].orelse and _is_self_attr(b[0].test, '_stop_keep_alive') \
+                and len(b[0].body) == 1 and isinstance(b[0].body[0], ast.Expr) \
+                and isinstance(b[0].body[0].value, ast.Call) and _is_self_attr(b[0].body[0].value.func, '_stop_keep_alive') \
+                and not b[0].body[0].value.args:
+            f['closeStopsFirst'] = True
+
+        def is_activated(n):
+            return isinstance(n, ast.Attribute) and n.attr == 'activated' and _is_self_attr(n.value, '_session')
+        if len(b) > 1 and isinstance(b[1], ast.If) and not b[1].orelse and isinstance(b[1].test, ast.Compare) \
+                and is_activated(b[1].test.left) and len(b[1].test.ops) == 1 and isinstance(b[1].test.ops[0], ast.Is) \
+                and isinstance(b[1].test.comparators[0], ast.Constant) and b[1].test.comparators[0].value is False:
+            inner = [st for st in b[1].body if not is_log(st)]
+            f['closeChecksActivated'] = len(inner) == 1 and isinstance(inner[0], ast.Return) and inner[0].value is None
+        rest = b[2:]
+        sends = [n for st in rest for n in ast.walk(st) if isinstance(n, ast.Call) and isinstance(n.func, ast.Attribute)
+                 and isinstance(n.func.value, ast.Name) and n.func.value.id == 'self']
+        names = [n.func.attr for n in sends]
+        f['closeLocked'] = names == ['send_and_receive'] and _reaches(rmcp, 'send_and_receive', '_send_and_receive') \
+            and not any(isinstance(n, (ast.With, ast.While, ast.For, ast.Try, ast.If)) for st in rest for n in ast.walk(st))
+        stores = [n for n in ast.walk(rmcp) if isinstance(n, (ast.Assign, ast.AugAssign, ast.AnnAssign))
+                  and any(isinstance(t, ast.Attribute) and t.attr == 'activated'
+                          for t in (n.targets if isinstance(n, ast.Assign) else [n.target]))]
+        false_stores = [n for n in stores if not (isinstance(n, ast.Assign) and isinstance(n.value, ast.Constant)
+                                                  and n.value.value is True)]
+        last = rest[-1] if rest else None
+        f['closeDeactivatesLast'] = bool(
+            last is not None and isinstance(last, ast.Assign) and len(last.targets) == 1 and is_activated(last.targets[0])
+            and isinstance(last.value, ast.Constant) and last.value.value is False and false_stores == [last]
+            and isinstance(rest[-2] if len(rest) > 1 else None, ast.Expr))
+        # the request itself must be sent before the store: the send is in an earlier statement
+        if f['closeDeactivatesLast']:
+            idx = [i for i, st in enumerate(rest) if any(n in sends for n in ast.walk(st))]
+            f['closeDeactivatesLast'] = bool(idx) and idx[-1] < len(rest) - 1
     return f
 
 
@@ -188,17 +345,21 @@ import PyIpmi.Model.Threads
 namespace PyIpmi.Gen.Threads
 open PyIpmi.Threads
 
-/-- keep-alive callable installed by establish_session: %s -/
+/-- keep-alive callable installed by establish_session: %s;  stopper returned by call_repeatedly: %s -/
 def shape : Shape :=
   { lockBlocks := %d, incFirst := %s, incCalls := %d, ioOutsideLock := %d, sendsInLock := %d, recvsInLock := %d,
     qGetInLock := %d, qPut := %d, packInSar := %d, packInSend := %d, sendBuildsIpmiMsg := %s, packIncs := %d,
     packIncGuardedByActivated := %s, seqAdd := %d, seqMod := %d, keepAliveLocked := %s, rawLocked := %s,
-    msgLocked := %s, sessAdd := %d, sessLimit := %d, sessWrapTo := %d }
+    msgLocked := %s, sessAdd := %d, sessLimit := %d, sessWrapTo := %d,
+    loopWaitsThenCalls := %s, loopSwallowsOnlyTimeout := %s, stopperSets := %s, stopperJoins := %s,
+    closeStopsFirst := %s, closeChecksActivated := %s, closeLocked := %s, closeDeactivatesLast := %s }
 
 end PyIpmi.Gen.Threads
-''' % (f['keepAliveName'], f['lockBlocks'], _b(f['incFirst']), f['incCalls'], f['ioOutsideLock'], f['sendsInLock'],
+''' % (f['keepAliveName'], f['stopperText'], f['lockBlocks'], _b(f['incFirst']), f['incCalls'], f['ioOutsideLock'], f['sendsInLock'],
        f['recvsInLock'], f['qGetInLock'], f['qPut'], f['packInSar'], f['packInSend'], _b(f['sendBuildsIpmiMsg']),
        f['packIncs'], _b(f['packIncGuardedByActivated']), int(f['seqAdd']), int(f['seqMod']), _b(f['keepAliveLocked']),
-       _b(f['rawLocked']), _b(f['msgLocked']), int(f['sessAdd']), int(f['sessLimit']), int(f['sessWrapTo']))
+       _b(f['rawLocked']), _b(f['msgLocked']), int(f['sessAdd']), int(f['sessLimit']), int(f['sessWrapTo']),
+       _b(f['loopWaitsThenCalls']), _b(f['loopSwallowsOnlyTimeout']), _b(f['stopperSets']), _b(f['stopperJoins']),
+       _b(f['closeStopsFirst']), _b(f['closeChecksActivated']), _b(f['closeLocked']), _b(f['closeDeactivatesLast']))
     lean.write_if_changed(OUT, txt)
     return f
